@@ -411,6 +411,7 @@ def run(ctx):
                                    "RTF stripper (C02/PropsRtf.v; regex pre-pass proved in the inert case, "
                                    "checked per case otherwise)"]
     ctx.extra["proved_walkers"].append("PPTX slide ordering step (stable sort by position; C02/PropsPptx.v) + end-to-end token oracle")
+    ctx.extra["proved_walkers"].append("shared ODF helper element_text for ods/odp/odg/odf paragraph text (C02/PropsOdf.v) + ODS/ODP end-to-end oracle")
     ctx.extra["correspondence_only_or_elsewhere"] = ["PPTX paragraph text, XLSX/XLS/ODS/ODP/ODG: C03/C13", "HTML/MHTML/EPUB: C17",
                                                      "PDF/DOC/PPT/MSG/EML/plain text: not modelled here"]
     docx_part(ctx, dx)
@@ -418,7 +419,7 @@ def run(ctx):
     import os
     import traceback
     only = os.environ.get("C02_ONLY", "")
-    for modname in ("props.c02_odt", "props.c02_rtf", "props.c02_pptx"):
+    for modname in ("props.c02_odt", "props.c02_rtf", "props.c02_pptx", "props.c02_odfx"):
         if only and modname.split("_")[-1] not in only.split(","):
             continue
         try:
@@ -562,7 +563,7 @@ def replay(ctx, rp):
     fmt = rp.get("format") or key.split(":")[0]
     if fmt != "docx":
         try:
-            mod = importlib.import_module({"odt": "props.c02_odt", "rtf": "props.c02_rtf", "pptx": "props.c02_pptx"}.get(fmt, "props.c02_" + fmt))
+            mod = importlib.import_module({"odt": "props.c02_odt", "rtf": "props.c02_rtf", "pptx": "props.c02_pptx", "ods": "props.c02_odfx", "odp": "props.c02_odfx", "odf": "props.c02_odfx"}.get(fmt, "props.c02_" + fmt))
         except ModuleNotFoundError:
             mod = None
         if mod is not None and hasattr(mod, "replay_part"):
